@@ -8,17 +8,22 @@ import z3
 
 from .. import load
 from ..findings import regions_for
+from ..core import OutsideModel
 from ..sarray import NPProxy, SArray, SRl, SIV
 from . import _vol as V
 
 PROPERTY = "C16"
 MODULES = ["volume_reader", "transform", "sharded_base", "data_types"]
+
 FUNCTIONS = ["volume_reader.nibabel_image_to_info", "volume_reader.store_nibabel_image_to_fullres_info",
-             "transform.nifti_to_neuroglancer_transform", "sharded_base.ShardSpec.to_dict (sharding option)",
+             "transform.nifti_to_neuroglancer_transform", "transform.matrix_as_compact_urlsafe_json", "sharded_base.ShardSpec.to_dict (sharding option)",
              "data_types.get_dtype"]
 STUBS = ["nibabel image -> fake image; nibabel.affines.voxel_sizes -> returns the enumerated voxel sizes and constrains the "
          "affine's column norms accordingly; aff2axcodes -> constant (only logged)",
-         "np.empty((4,4)) -> matrix of exact reals; np.dot = exact sum of products (z3 Real)"]
+         "np.empty((4,4)) -> matrix of exact reals; np.dot = exact sum of products (z3 Real)",
+         "harness 'compact': str/repr/float/format/int/json.dumps in transform.py -> symbolic text (cells = literal characters or "
+         "digit terms) of the double nearest to D*10^-k: repr is the canonical form of that decimal (fixed notation for "
+         "1e-4 <= |x| < 1e16, else d.ddde+XX); every str method is computed cell-wise with forks on digit values"]
 ASSUMPTIONS = ["the transform clause is about the real-arithmetic meaning of the formulas (float rounding excluded)"]
 EXPLANATION = ("The affine is 12 symbolic reals (any rotation, shear, flip; column norms tied to the enumerated voxel sizes) and the "
                "voxel index is symbolic: the solver proves M_ng * ((i + 1/2) * resolution, 1) == 10^6 * A * (i, 1), i.e. the "
@@ -26,9 +31,12 @@ EXPLANATION = ("The affine is 12 symbolic reals (any rotation, shear, flip; colu
                "centre. Size, channel count, resolution, data type and sharding spec of the generated info are checked for "
                "enumerated shapes/dtypes.")
 BOUNDS = {"quick": "all real affines with voxel sizes from {0.375, 0.5, 1, 2, 3, 4} (8 triples; values for which voxel size * 10^6 is exact in binary floating point); shapes 3-D/4-D, stored dtypes uint8, uint16, int16, "
-                   "float32, float64, with/without header scaling; sharding strings '1,2,3' / gzip",
-          "thorough": "more voxel-size triples"}
-OUTSIDE = ["compact-URL round trip (str(float)/json formatting is C code)", "nibabel header parsing", "RGB structured dtypes",
+                   "float32, float64, with/without header scaling; sharding strings '1,2,3' / gzip; compact form: 4x4 matrices with one or two "
+                   "symbolic entries D*10^-k, every integer |D| < 10^6 (all digit counts / trailing-zero patterns), every k in -20..20, "
+                   "among fixed entries covering integers, fractions, exponent notation of both signs",
+          "thorough": "more voxel-size triples; compact form |D| < 10^11"}
+OUTSIDE = ["compact URL form for doubles that are not the nearest double of a decimal with at most 6 significant digits "
+           "(their shortest repr is produced by C code; the model is validated against CPython by harness 'reprmodel')", "nibabel header parsing", "RGB structured dtypes",
            "float rounding in the matrix arithmetic"]
 
 
@@ -42,7 +50,170 @@ def configs(tier, seed):
     for shape, dt, sc in cases:
         for sharding in (None, "1,2,3"):
             out.append(dict(harness="info", shape=list(shape), dtype=dt, scaling=sc, sharding=sharding, gzip=bool(sharding and len(shape) == 3), cost=1))
+    base = [[0.25, -0.5, 0.0, -1234567.875], [1e-07, 1000000.0, 3.0, 1.5e+300], [0.0, 2.5e-10, 1e+16, 12345678.9], [0.0, 0.0, 0.0, 1.0]]
+    digits = 6 if tier == "quick" else 11
+    for n, k in enumerate(list(range(-20, 21, 1))):
+        out.append(dict(harness="compact", base=base, sym=[[[n % 3, (n * 2 + 1) % 4], k]], digits=digits, cost=2))
+    out.append(dict(harness="compact", base=base, sym=[[[0, 0], 0], [[2, 3], 7]], digits=3, cost=4))
+    out.append(dict(harness="compact", base=base, sym=[[[1, 1], -14], [[3, 0], 2]], digits=3, cost=4))
+    out.append(dict(harness="reprmodel", Ds=[0, 1, -1, 5, 10, 12, 25, 100, 101, 120, 999, 1000, 1234, -4050, 99999, 100000, 123456, 1234567, 9007199, 123456789012345], cost=1))
     return out
+
+
+# ------------------------------------------------------------------ compact URL form
+
+class CompactParseError(Exception):
+    pass
+
+
+def parse_compact(ctx, cells):
+    """Parser of the compact form written from its definition: JSON with '_' in place of ',' (what Neuroglancer's URL
+    parser undoes), an array of arrays of JSON numbers.  Returns rows of (M, E): the number is M * 10**E exactly."""
+    from ..symtext import Dg
+    pos = [0]
+
+    def peek():
+        return cells[pos[0]] if pos[0] < len(cells) else None
+
+    def lit(ch):
+        c = peek()
+        if not (isinstance(c, str) and c == ch):
+            raise CompactParseError(f"expected {ch!r} at {pos[0]}, found {c!r}")
+        pos[0] += 1
+
+    def is_digit(c):
+        return isinstance(c, Dg) or (isinstance(c, str) and c in "0123456789")
+
+    def dval(c):
+        return c.e if isinstance(c, Dg) else z3.IntVal(int(c))
+
+    def digits():
+        ds = []
+        while is_digit(peek()):
+            ds.append(peek())
+            pos[0] += 1
+        return ds
+
+    def number():
+        neg = False
+        if peek() == "-":
+            neg = True
+            pos[0] += 1
+        ip = digits()
+        if not ip:
+            raise CompactParseError(f"digit expected at {pos[0]}: {peek()!r}")
+        if len(ip) > 1:
+            first = ip[0]
+            zero = (first == "0") if isinstance(first, str) else ctx.decide(first.e == 0)
+            if zero:
+                raise CompactParseError("JSON numbers have no leading zeros")
+        fp = []
+        if peek() == ".":
+            pos[0] += 1
+            fp = digits()
+            if not fp:
+                raise CompactParseError("digit expected after the decimal point")
+        E = 0
+        if isinstance(peek(), str) and peek() in "eE":
+            pos[0] += 1
+            sign = 1
+            if isinstance(peek(), str) and peek() in "+-":
+                sign = -1 if peek() == "-" else 1
+                pos[0] += 1
+            ed = digits()
+            if not ed:
+                raise CompactParseError("digit expected in the exponent")
+            ev = 0
+            for c in ed:
+                ev = ev * 10 + (int(c) if isinstance(c, str) else ctx.concretize(c.e))
+            E = sign * ev
+        M = z3.IntVal(0)
+        for c in ip + fp:
+            M = M * 10 + dval(c)
+        return (-M if neg else M), E - len(fp), len(ip) + len(fp)
+
+    def row():
+        lit("[")
+        out = [number()]
+        while peek() == "_":
+            pos[0] += 1
+            out.append(number())
+        lit("]")
+        return out
+
+    lit("[")
+    rows = [row()]
+    while peek() == "_":
+        pos[0] += 1
+        rows.append(row())
+    lit("]")
+    if pos[0] != len(cells):
+        raise CompactParseError(f"trailing text at {pos[0]}")
+    return rows
+
+
+def H_compact(ctx, cfg):
+    """matrix_as_compact_urlsafe_json: the text parses back (JSON with '_' for ',') to the same matrix.  One or two entries
+    are symbolic doubles D * 10**-k (any integer D of up to `digits` digits), the others are fixed values."""
+    from fractions import Fraction
+    from .. import symtext as T
+    tr = load.patch("transform", json=T.JsonStub(), str=T.sym_str, repr=T.sym_repr, float=T.sym_float, format=T.sym_format,
+                    int=lambda x=0, *a: x.sym_int() if isinstance(x, T.SDecFloat) else builtins.int(x, *a))
+    base = [[float(v) for v in r] for r in cfg["base"]]
+    M = [list(r) for r in base]
+    syms = {}
+    for j, (pos, k) in enumerate(cfg["sym"]):
+        D = z3.Int(f"D{j}")
+        ctx.assume(z3.And(D > -10 ** cfg["digits"], D < 10 ** cfg["digits"]))
+        ctx.input(f"D{j}", D)
+        x = T.SDecFloat(D, k)
+        M[pos[0]][pos[1]] = x
+        syms[tuple(pos)] = x
+    out = tr.matrix_as_compact_urlsafe_json(M)
+    cells = T.expand(out)
+    ctx.sample(dict(sym=cfg["sym"], length=len(cells)))
+    try:
+        rows = parse_compact(ctx, cells)
+    except CompactParseError as e:
+        ctx.fail("compact-form-parses", detail=f"{e}: {out!r}")
+        return
+    ok_shape = len(rows) == len(M) and all(len(r) == len(m) for r, m in zip(rows, M))
+    ctx.prove(ok_shape, "compact-form-has-the-matrix-shape", detail=repr(out))
+    if not ok_shape:
+        return
+    for i, r in enumerate(rows):
+        for j, (Mv, E, nd) in enumerate(r):
+            x = M[i][j]
+            if isinstance(x, T.SDecFloat):
+                # Mv * 10^E == D * 10^-k: equal decimals denote equal doubles; with <= 15 digits on both sides
+                # different decimals denote different doubles, beyond that a difference is not conclusive
+                s = min(E, -x.k)
+                same = Mv * 10 ** (E - s) == x.D * 10 ** (-x.k - s)
+                if nd > 15 and not ctx.decide(same):
+                    raise OutsideModel("a rendered symbolic number with more than 15 digits differs from the input decimal")
+                ctx.prove(same, f"entry-{i}-{j}-parses-back-to-the-same-number")
+            else:
+                Mc = z3.simplify(Mv)
+                if not z3.is_int_value(Mc):
+                    ctx.fail(f"entry-{i}-{j}-parses-back-to-the-same-number", detail="concrete entry rendered with symbolic digits")
+                    continue
+                val = Fraction(Mc.as_long()) * Fraction(10) ** E
+                ctx.prove(float(val) == x, f"entry-{i}-{j}-parses-back-to-the-same-number", detail=f"{float(val)!r} for {x!r}")
+
+
+def H_reprmodel(ctx, cfg):
+    """Validation of the repr model of SDecFloat against CPython on a grid of concrete (D, k) (translator validation)."""
+    from .. import symtext as T
+    bad = []
+    for k in range(-22, 25):
+        for D in cfg["Ds"]:
+            x = T.SDecFloat(z3.IntVal(D), k)
+            got = "".join(c if isinstance(c, str) else "?" for c in x.repr_cells())
+            want = repr(float(f"{D}e{-k}"))
+            if got != want:
+                bad.append((D, k, got, want))
+    ctx.input("bad", [list(map(str, b)) for b in bad[:5]])
+    ctx.prove(not bad, "repr-model-agrees-with-cpython", detail=str(bad[:5]))
 
 
 def _world(vs, ctx=None, sym_affine=False):
@@ -141,6 +312,25 @@ def replay(cfg, cex):
     import nibabel
     from fractions import Fraction
     vr = load.mod("volume_reader")
+    if cfg["harness"] == "reprmodel":
+        bad = cex["inputs"].get("bad")
+        return bool(bad), f"repr model differs from CPython: {bad}"
+    if cfg["harness"] == "compact":
+        import json as _json
+        tr = load.mod("transform")
+        M = [[float(v) for v in r] for r in cfg["base"]]
+        for j, (pos, k) in enumerate(cfg["sym"]):
+            M[pos[0]][pos[1]] = float(f"{int(cex['inputs'][f'D{j}'])}e{-k}")
+        text = tr.matrix_as_compact_urlsafe_json(M)
+        try:
+            back = _json.loads(text.replace("_", ","))
+        except ValueError as e:
+            return True, f"compact form {text!r} does not parse: {e}"
+        if back != M:
+            diff = [(i, j, M[i][j], back[i][j]) for i in range(len(M)) for j in range(len(M[i]))
+                    if i >= len(back) or j >= len(back[i]) or back[i][j] != M[i][j]] if len(back) == len(M) else "shape"
+            return True, f"compact form {text!r} parses back to a different matrix: (row, col, given, parsed) = {diff}"
+        return False, "compact form parses back to the same matrix on the real code"
     if cfg["harness"] == "transform":
         A = real_np.eye(4)
         vals = [float(Fraction(x)) if "/" in str(x) or str(x).lstrip("-").replace(".", "").isdigit() else float(str(x).rstrip("?")) for x in cex["inputs"]["affine"]]
